@@ -44,7 +44,7 @@ func main() {
 	runner.Main(runner.Config{
 		ID:    "C10",
 		Level: "fault_enumeration",
-		Rule:  "seed streams: 6 small valid patches (rsync ops of every kind, whole-file ops, empty files, no old build, dirs+symlinks, one optimized patch with a bsdiff series), 5 signatures, 5 overlay streams, written by the real writers under none/gzip-1/brotli-1 framing. Enumerated exhaustively per reader: (a) every prefix length of every seed stream; (b) on the independently decoded message list: every integer/enum field of every non-container message <- {-1,0,1,count-1,count,count+1,2049,2^31,2^63-1,-2^63, each valid index} (enums: defined values, 2, 7, 2049, -1), bytes fields resized (empty, +1, past the old file), bool toggled, every message deleted / duplicated / swapped with its neighbour (missing, duplicated, moved end markers and headers; fewer/more block hashes), header compression nil / unregistered algorithm / any quality; all pairs (field x field, field x delete/duplicate/swap) of mutations of every overlay stream; thorough adds all such pairs within one file's series (every patch seed, uncompressed framing, patcher with each bowl and optimizer) and the optimizer with ForceMapAll. Mutated lists are re-framed with the harness codec so containers and declared lengths stay valid. Non-trivial = the reader gets past the containers: any message-level mutation, or a truncation that leaves both containers (signature: the container; overlay: magic+header) intact as judged by an independent tolerant decode of the prefix.",
+		Rule:  "seed streams: 7 small valid patches (rsync ops of every kind, whole-file ops, empty files, no old build, dirs+symlinks, two optimized patches with a bsdiff series - one against an old file of exactly two 32KiB cache chunks), 5 signatures, 5 overlay streams, written by the real writers under none/gzip-1/brotli-1 framing. Enumerated exhaustively per reader: (a) every prefix length of every seed stream; (b) on the independently decoded message list: every integer/enum field of every non-container message <- {-1,0,1,count-1,count,count+1,2049,2^31,2^63-1,-2^63, each valid index} (enums: defined values, 2, 7, 2049, -1), bytes fields resized (empty, +1, past the old file), bool toggled, every message deleted / duplicated / swapped with its neighbour (missing, duplicated, moved end markers and headers; fewer/more block hashes), header compression nil / unregistered algorithm / any quality; all pairs (field x field, field x delete/duplicate/swap) of mutations of every overlay stream; thorough adds all such pairs within one file's series (every patch seed, uncompressed framing, patcher with each bowl and optimizer) and the optimizer with ForceMapAll. Mutated lists are re-framed with the harness codec so containers and declared lengths stay valid. Non-trivial = the reader gets past the containers: any message-level mutation, or a truncation that leaves both containers (signature: the container; overlay: magic+header) intact as judged by an independent tolerant decode of the prefix.",
 		Assumptions: []string{
 			"header mutations that swap one registered compression algorithm for another are not enumerated: the reader would then see ill-formed containers and arbitrary message lengths, which the property excludes",
 			"file contents are seeded pseudo-random (VERIF_SEED); the shape of seeds and mutations does not depend on the seed",
@@ -301,6 +301,10 @@ func containersIntact(kind string, s []byte) (ok bool) {
 // ---- enumeration -----------------------------------------------------------
 
 var patchSeedNames = []string{"noold", "tree", "mixed", "whole", "multi", "bsdiff"}
+
+// fieldSeedNames: seeds of the field-mutation sub-checks (the 64 KiB series is not truncated
+// at every byte: its stream is 65 KB long)
+var fieldSeedNames = append(append([]string{}, patchSeedNames...), "bsdiff64k")
 var sigSeedNames = []string{"noold", "whole", "multi", "tree", "sig5"}
 var pairSeedNames = []string{"noold", "tree", "mixed", "whole", "multi", "bsdiff"}
 
@@ -415,7 +419,7 @@ func body(w *runner.W) {
 			if thorough {
 				targets = append(targets, "optimize-fma")
 			}
-			for _, name := range patchSeedNames {
+			for _, name := range fieldSeedNames {
 				sd := e.seeds.get(name)
 				for _, comp := range comps {
 					for _, t := range targets {
@@ -462,7 +466,7 @@ func body(w *runner.W) {
 		e.g.beginSub()
 		counts := map[string]int{}
 		complete := func() bool {
-			for _, name := range patchSeedNames {
+			for _, name := range fieldSeedNames {
 				sd := e.seeds.get(name)
 				for _, comp := range comps {
 					for _, t := range bowls {
